@@ -16,14 +16,12 @@
   ANY of the seventeen sorted-set operations (`Covered` = the whole family; `Scan` has no
   specification) on any table state satisfying the structural invariant C11 (`DB.Inv`), with any
   arguments and any clock value, returns what the map returns and leaves tables that stand for the
-  map's new state — outside four narrow, decidable classes of inputs on which the real code (and
+  map's new state — outside two narrow, decidable classes of inputs on which the real code (and
   therefore the model) is known to deviate, each proved equal to its entry in the driver's
   catalogue `Spec.known` (`classifiers_are_the_catalogue`):
 
     * `Stale` (D05): the operation writes to a name whose stored key row has expired;
-    * `RepeatedKey` (D07): an intersection over a key list that names a key twice;
     * `DestIsSource` (D08): a storing union / intersection whose destination is also a source;
-    * `RankInverted` (D09): `DeleteWith.ByRank(a, b)` with `0 ≤ b`, `b + 1 < a`;
 
   and outside one class that is NOT in the catalogue and was found by this proof:
 
@@ -32,21 +30,36 @@
       is not associative (`sum_order_deviates`: 2^53 + 1 + 1). `min`, `max` and sums of at most two
       terms are order-independent and are covered for every key list.
 
-  Side conditions that are not deviations: `ArgsOk` (`AddMany` takes a Go map, so no member is
-  repeated; the scores of a union are fixed by C05 only for distinct keys) and `Decided` (the
-  specification answers `skip` when a score sum is NaN: `inf + -inf`). Each is shown necessary
-  (`addmany_repeated_member`, `union_repeated_key`, `nan_is_undecided`).
+  Two classes of the earlier versions of this file are gone, because the code was repaired and the
+  model follows it: D07 (an intersection over a key list that names a key twice compared
+  `count(distinct kid)` with `len(keys)` and came back empty; it now compares with the number of
+  distinct keys) and D09 (`DeleteWith.ByRank(a, b)` with `b + 1 < a` reached SQLite as
+  `limit a, <negative>` and removed the whole tail; it now returns 0 when `a > b`). The theorem
+  covers those inputs now; the former witnesses are kept as agreements
+  (`repeated_key_now_agrees`, `rank_inverted_now_agrees`, `inverted_rank_delete_removes_nothing`).
 
-  Every classifier has a kernel-checked witness (`stale_add_deviates`, `repeated_key_deviates`,
-  `dest_is_source_deviates`, `rank_inverted_deviates`, `sum_order_deviates`), so the full-strength
-  statement is false (`full_strength_is_false`).
+  Side conditions that are not deviations: `ArgsOk` and `Decided` (the specification answers
+  `skip` when a score sum is NaN: `inf + -inf`). `ArgsOk` says that `AddMany` takes a Go map, so
+  no member is repeated, and that a `sum` is taken over a list of DISTINCT keys. The latter is a
+  convention of the SPECIFICATION, not a defect of the code (DESIGN §10.5): C05 fixes the members
+  of a union / intersection for any key list but its scores only for distinct keys. SQL's
+  `where key in (…)` reads a key named twice once, `Spec.zCombine` walks the list as given and adds
+  its score twice. For `min` and `max` the repetition is invisible and the theorem covers every key
+  list; for a `sum` over a repeated key `combination_members_any_key_list` proves what C05 asks
+  for: the model answers as for the distinct keys, with exactly the specification's members. Each
+  side condition is shown necessary (`addmany_repeated_member`, `union_repeated_key`,
+  `inter_repeated_key_sum`, `nan_is_undecided`).
+
+  Every classifier has a kernel-checked witness (`stale_add_deviates`, `dest_is_source_deviates`,
+  `sum_order_deviates`), so the full-strength statement is false (`full_strength_is_false`).
 
   `zset_seq_refines` lifts the single step to sequences at non-decreasing clock values; it rests
   on `zset_preserves_zwf` (every operation keeps `DB.ZWF`, the consequence of the invariant the
   proofs use, for all states and arguments) and `Spec.abs_mono`. The sentences of the property are
   restated one by one at the end (`missing_key_reads_empty`, `len_is_number_of_members`,
   `add_reports_created`, `score_after_add`, `inverted_score_range_selects_nothing`,
-  `inverted_rank_range_selects_nothing`).
+  `inverted_rank_range_selects_nothing`, `inverted_rank_delete_removes_nothing`,
+  `combination_members_any_key_list`).
 
   Results are compared with `=` on `Out` (`Spec.outEq` is built from `partial def`s and is opaque
   to the kernel; sorted-set results never contain key rows, on which alone it differs from `=`).
@@ -81,35 +94,29 @@ def Covered : Op → Bool := isZOp
 def Stale (op : Op) (now : Int) (db : DB) : Bool :=
   (Spec.writeKeys op).any (Spec.staleKey db now)
 
-/-- D07, exactly as in `Spec.known`: an intersection over a key list with a repeated key -/
-def RepeatedKey : Op → Bool
-  | .zInter ks _ | .zInterStore _ ks _ => !Spec.distinct ks
-  | _ => false
-
 /-- D08, exactly as in `Spec.known`: the destination of a storing combination is also a source -/
 def DestIsSource : Op → Bool
   | .zInterStore d ks _ | .zUnionStore d ks _ => ks.contains d
   | _ => false
 
-/-- D09, exactly as in `Spec.known`: `DeleteWith.ByRank(a, b)` with `b + 1 < a` -/
-def RankInverted : Op → Bool
-  | .zDeleteRank _ a b => decide (a ≥ 0) && decide (b ≥ 0) && decide (b - a + 1 < 0)
-  | _ => false
-
-/-- The four classifiers are the entries D05, D07, D08, D09 of the catalogue of known findings
-(`Spec.known`), for every sorted-set operation. -/
+/-- The two classifiers are the entries D05, D08 of the catalogue of known findings
+(`Spec.known`), and the catalogue has no other entry for a sorted-set operation (D07 and D09 are
+repaired). -/
 theorem classifiers_are_the_catalogue : ∀ (inTx : Bool) (op : Op) (now : Int) (db : DB), IsZOp op →
     Spec.known inTx op now db
-      = (if Stale op now db then ["D05"] else []) ++ (if RepeatedKey op then ["D07"] else [])
-        ++ (if DestIsSource op then ["D08"] else []) ++ (if RankInverted op then ["D09"] else []) := by
+      = (if Stale op now db then ["D05"] else []) ++ (if DestIsSource op then ["D08"] else []) := by
   intro inTx op now db hop
-  cases op <;> first | (cases hop; done) | (simp [Spec.known, Stale, RepeatedKey, DestIsSource, RankInverted])
+  cases op <;> first | (cases hop; done) | (simp [Spec.known, Stale, DestIsSource])
 
-/-- `AddMany` takes a Go map: no member occurs twice. C05 fixes the scores of a union only for a
-list of distinct keys (for an intersection a repeated key is D07 already). -/
+/-- `AddMany` takes a Go map: no member occurs twice. C05 fixes the SCORES of a union or an
+intersection only for a list of distinct keys: a `sum` is taken over distinct keys (`min` and `max`
+do not see a repetition, so they are covered for every key list). This is a convention of the
+specification, not a deviation of the code: see `combination_members_any_key_list` for what holds
+of a `sum` over a repeated key. -/
 def ArgsOk : Op → Bool
   | .zAddMany _ items => Spec.distinct (items.map (·.1))
-  | .zUnion ks _ | .zUnionStore _ ks _ => Spec.distinct ks
+  | .zInter ks agg | .zUnion ks agg | .zInterStore _ ks agg | .zUnionStore _ ks agg =>
+    Spec.distinct ks || decide (agg ≠ .sum)
   | _ => true
 
 /-- NOT in the catalogue: a `sum` over three or more keys. The model adds the scores of a member in
@@ -133,12 +140,18 @@ theorem distinct_iff_nodup : ∀ (l : List Bytes), Spec.distinct l = true ↔ l.
 
 theorem zset_refines_zwf : ∀ (op : Op) (now : Int) (db : DB),
     IsZOp op → db.ZWF → Covered op = true → ArgsOk op = true → Decided op now db = true →
-    Stale op now db = false → RepeatedKey op = false → DestIsSource op = false →
-    RankInverted op = false → SumOrder op = false →
+    Stale op now db = false → DestIsSource op = false → SumOrder op = false →
     let r := Model.dbRun op now db
     r.out = (Spec.step op now (Spec.abs now db)).out ∧
       Spec.abs now r.db = Spec.purge now (Spec.step op now (Spec.abs now db)).st := by
-  intro op now db hop hz hcov harg hdec hst hrep hdst hrank hsum
+  intro op now db hop hz hcov harg hdec hst hdst hsum
+  have hkeys : ∀ (agg : Agg) (ks : List Bytes),
+      (Spec.distinct ks || decide (agg ≠ .sum)) = true → ks.Nodup ∨ agg ≠ .sum := by
+    intro agg ks h
+    simp only [Bool.or_eq_true, decide_eq_true_eq] at h
+    rcases h with h | h
+    · exact Or.inl ((distinct_iff_nodup ks).1 h)
+    · exact Or.inr h
   have hord : ∀ (agg : Agg) (ks : List Bytes),
       (decide (agg = .sum) && decide (ks.length ≥ 3)) = false → agg ≠ .sum ∨ ks.length ≤ 2 := by
     intro agg ks h
@@ -155,7 +168,7 @@ theorem zset_refines_zwf : ∀ (op : Op) (now : Int) (db : DB),
     exact zAddMany_refines hz hns items ((distinct_iff_nodup _).1 harg)
   case zCount k lo hi => exact zCount_refines hz now k lo hi
   case zDelete k es => exact zDelete_refines hz now k es
-  case zDeleteRank k a b => exact zDeleteRank_refines hz now k a b hrank
+  case zDeleteRank k a b => exact zDeleteRank_refines hz now k a b
   case zDeleteScore k lo hi => exact zDeleteScore_refines hz now k lo hi
   case zGetRank k e => exact zGetRank_refines hz now k e false
   case zGetRankRev k e => exact zGetRank_refines hz now k e true
@@ -178,43 +191,43 @@ theorem zset_refines_zwf : ∀ (op : Op) (now : Int) (db : DB),
       simp [Spec.zIncr, hg, hold, hadd, Spec.skip, Spec.isSkip] at hd
   case zLen k => exact zLen_refines hz now k
   case zInter ks agg =>
-    have hks : ks.Nodup := (distinct_iff_nodup ks).1 (by simpa [RepeatedKey] using hrep)
+    have hks := hkeys agg ks harg
     cases hc : Spec.zCombine (Spec.abs now db) ks agg true with
     | none => simp [Decided, Spec.step, hc, Spec.skip, Spec.isSkip] at hdec
     | some r =>
-      have := zCombineRun_refines hz now hks agg (hord agg ks hsum) true hc
+      have := zCombineRun_refines hz now agg hks (hord agg ks hsum) true hc
       show Refines now (zCombineRun db ks agg true now) (Spec.step (.zInter ks agg) now _)
       simp only [Spec.step, hc]
       exact this
   case zUnion ks agg =>
-    have hks : ks.Nodup := (distinct_iff_nodup ks).1 harg
+    have hks := hkeys agg ks harg
     cases hc : Spec.zCombine (Spec.abs now db) ks agg false with
     | none => simp [Decided, Spec.step, hc, Spec.skip, Spec.isSkip] at hdec
     | some r =>
-      have := zCombineRun_refines hz now hks agg (hord agg ks hsum) false hc
+      have := zCombineRun_refines hz now agg hks (hord agg ks hsum) false hc
       show Refines now (zCombineRun db ks agg false now) (Spec.step (.zUnion ks agg) now _)
       simp only [Spec.step, hc]
       exact this
   case zInterStore d ks agg =>
-    have hks : ks.Nodup := (distinct_iff_nodup ks).1 (by simpa [RepeatedKey] using hrep)
+    have hks := hkeys agg ks harg
     have hd : d ∉ ks := by simpa [DestIsSource] using hdst
     have hns : staleKey db now d = false := by simpa [Stale, writeKeys] using hst
     cases hc : Spec.zCombine (Spec.abs now db) ks agg true with
     | none => simp [Decided, Spec.step, hc, Spec.skip, Spec.isSkip] at hdec
     | some r =>
-      have := zCombineStore_refines hz hks hd hns agg (hord agg ks hsum) true hc
+      have := zCombineStore_refines hz agg hks hd hns (hord agg ks hsum) true hc
       show Refines now (update (fun x => zCombineStore x d ks agg true now) db)
         (Spec.step (.zInterStore d ks agg) now _)
       simp only [Spec.step, hc]
       exact this
   case zUnionStore d ks agg =>
-    have hks : ks.Nodup := (distinct_iff_nodup ks).1 harg
+    have hks := hkeys agg ks harg
     have hd : d ∉ ks := by simpa [DestIsSource] using hdst
     have hns : staleKey db now d = false := by simpa [Stale, writeKeys] using hst
     cases hc : Spec.zCombine (Spec.abs now db) ks agg false with
     | none => simp [Decided, Spec.step, hc, Spec.skip, Spec.isSkip] at hdec
     | some r =>
-      have := zCombineStore_refines hz hks hd hns agg (hord agg ks hsum) false hc
+      have := zCombineStore_refines hz agg hks hd hns (hord agg ks hsum) false hc
       show Refines now (update (fun x => zCombineStore x d ks agg false now) db)
         (Spec.step (.zUnionStore d ks agg) now _)
       simp only [Spec.step, hc]
@@ -224,12 +237,12 @@ theorem zset_refines_zwf : ∀ (op : Op) (now : Int) (db : DB),
 
 /-- **C05, partial refinement.** One call of any sorted-set operation, on any table state
 satisfying the structural invariant, for any arguments and any clock value, outside the classes
-D05, D07, D08, D09 and `SumOrder`: the model returns exactly what the in-memory map returns, and
-the tables afterwards stand for exactly the map's new state. -/
+D05, D08 and `SumOrder`: the model returns exactly what the in-memory map returns, and the tables
+afterwards stand for exactly the map's new state. (Key lists that name a key twice and inverted
+rank ranges, the former D07 and D09, are covered.) -/
 theorem zset_refines_partial : ∀ (op : Op) (now : Int) (db : DB),
     IsZOp op → db.Inv → Covered op = true → ArgsOk op = true → Decided op now db = true →
-    Stale op now db = false → RepeatedKey op = false → DestIsSource op = false →
-    RankInverted op = false → SumOrder op = false →
+    Stale op now db = false → DestIsSource op = false → SumOrder op = false →
     let r := Model.dbRun op now db
     r.out = (Spec.step op now (Spec.abs now db)).out ∧
       Spec.abs now r.db = Spec.purge now (Spec.step op now (Spec.abs now db)).st :=
@@ -301,8 +314,7 @@ def CleanRun : List (Op × Int) → DB → Prop
   | [], _ => True
   | (op, now) :: rest, db =>
     IsZOp op ∧ ArgsOk op = true ∧ Decided op now db = true ∧ Stale op now db = false ∧
-      RepeatedKey op = false ∧ DestIsSource op = false ∧ RankInverted op = false ∧
-      SumOrder op = false ∧ CleanRun rest (Model.dbRun op now db).db
+      DestIsSource op = false ∧ SumOrder op = false ∧ CleanRun rest (Model.dbRun op now db).db
 
 /-- the clock does not run backwards -/
 def ClockOk : Int → List (Op × Int) → Prop
@@ -322,8 +334,8 @@ theorem zset_seq_refines : ∀ (tr : List (Op × Int)) (t : Int) (db : DB), db.Z
       Spec.abs (lastClock t tr) (runModel tr db).2 = (runSpec tr (Spec.abs t db)).2
   | [], _, _, _, _, _ => ⟨rfl, rfl⟩
   | (op, now) :: rest, t, db, hz, hc, hcl => by
-    obtain ⟨hop, harg, hdec, hst, hrep, hdst, hrank, hsum, hrest⟩ := hcl
-    obtain ⟨href1, href2⟩ := zset_refines_zwf op now db hop hz hop harg hdec hst hrep hdst hrank hsum
+    obtain ⟨hop, harg, hdec, hst, hdst, hsum, hrest⟩ := hcl
+    obtain ⟨href1, href2⟩ := zset_refines_zwf op now db hop hz hop harg hdec hst hdst hsum
     have ih := zset_seq_refines rest now (Model.dbRun op now db).db
       (zset_preserves_zwf op now db hop hz) hc.2 hrest
     simp only [runModel, runSpec, lastClock]
@@ -530,6 +542,58 @@ theorem inverted_rank_range_selects_nothing : ∀ (k : Bytes) (a b : Int) (desc 
     intro l; unfold rankSlice; rw [if_pos (by omega)]
   simp [this, Spec.ok]
 
+theorem dbRun_zDeleteRank (k : Bytes) (a b : Int) (now : Int) (db : DB) :
+    Model.dbRun (.zDeleteRank k a b) now db
+      = update (fun d => Model.zDeleteRank d k a b now) db := rfl
+
+/-- "an empty or inverted range selects nothing" (remove by rank; this was D09): with `a > b` or a
+negative bound `DeleteWith.ByRank(a, b)` answers 0 and changes nothing. -/
+theorem inverted_rank_delete_removes_nothing : ∀ (k : Bytes) (a b : Int) (now : Int) (db : DB),
+    db.Inv → (a > b ∨ a < 0 ∨ b < 0) →
+    (Model.dbRun (.zDeleteRank k a b) now db).out = .ok (.int 0) ∧
+    Spec.abs now (Model.dbRun (.zDeleteRank k a b) now db).db = Spec.abs now db := by
+  intro k a b now db hinv h
+  have hz := DB.Inv.zwf hinv
+  have hs : ∀ (l : List (Bytes × Score)), rankSlice l a b = [] := by
+    intro l; unfold rankSlice; rw [if_pos (by omega)]
+  have href := zDeleteRank_refines hz now k a b
+  rw [hs, List.map_nil, zRemove_nil] at href
+  rw [dbRun_zDeleteRank]
+  exact ⟨href.1, by rw [href.2]; exact purge_abs hz.names now⟩
+
+theorem dbRun_zInter (ks : List Bytes) (agg : Agg) (now : Int) (db : DB) :
+    Model.dbRun (.zInter ks agg) now db = zCombineRun db ks agg true now := rfl
+theorem dbRun_zUnion (ks : List Bytes) (agg : Agg) (now : Int) (db : DB) :
+    Model.dbRun (.zUnion ks agg) now db = zCombineRun db ks agg false now := rfl
+
+/-- "union and intersection … produce exactly the members of the mathematical result for any key
+list": `Inter` / `Union` (`inter` = `true` / `false`) over ANY key list, any aggregate. Naming a
+key twice changes nothing in the answer of the model (it is the answer for the distinct keys
+`dedup ks`, which by `zset_refines_partial` is the specification's answer `r'` for them, in rank
+order), and that answer has exactly the members of the specification's answer `r` for the list as
+given. Only the scores of a `sum` differ: the specification adds a repeated key's score once per
+occurrence (`inter_repeated_key_sum`). The hypotheses say that the specification decides both
+cases (no NaN) and that the distinct keys are outside `SumOrder`. -/
+theorem combination_members_any_key_list : ∀ (ks : List Bytes) (agg : Agg) (inter : Bool) (now : Int)
+    (db : DB) (r r' : List (Bytes × Score)), db.Inv →
+    Spec.zCombine (Spec.abs now db) ks agg inter = some r →
+    Spec.zCombine (Spec.abs now db) (dedup ks) agg inter = some r' →
+    (agg ≠ .sum ∨ (dedup ks).length ≤ 2) →
+    (Model.dbRun (if inter then .zInter ks agg else .zUnion ks agg) now db).out
+        = .ok (.list ((Spec.zsorted r').map Spec.zItem)) ∧
+      (Model.dbRun (if inter then .zInter ks agg else .zUnion ks agg) now db).db = db ∧
+      r'.map (·.1) = r.map (·.1) := by
+  intro ks agg inter now db r r' hinv hr hr' hord
+  obtain ⟨h1, h2⟩ := zCombineRun_members (DB.Inv.zwf hinv) now ks agg hord inter hr hr'
+  cases inter
+  · show (Model.dbRun (.zUnion ks agg) now db).out = _ ∧
+      (Model.dbRun (.zUnion ks agg) now db).db = db ∧ _
+    rw [dbRun_zUnion, h1]
+    exact ⟨rfl, rfl, h2⟩
+  · show (Model.dbRun (.zInter ks agg) now db).out = _ ∧
+      (Model.dbRun (.zInter ks agg) now db).db = db ∧ _
+    rw [dbRun_zInter, h1]
+    exact ⟨rfl, rfl, h2⟩
 
 /-! ### the deviations are real -/
 
@@ -597,15 +661,22 @@ def dbXY : DB :=
     zsets := [{ rowid := 1, kid := 1, elem := bA, score := .fin 1 },
               { rowid := 2, kid := 2, elem := bB, score := .fin 2 }] }
 
-/-- D07 is real. `Inter(x, x)`: the intersection of a set with itself is the set, with the score
-summed. The model (like the code, whose `having count(distinct kid) = 2` can never hold) returns
-nothing. -/
-theorem repeated_key_deviates :
-    dbXY.Inv ∧ RepeatedKey (.zInter [bX, bX] .sum) = true ∧
-    Decided (.zInter [bX, bX] .sum) 10 dbXY = true ∧
-    outItems (Model.dbRun (.zInter [bX, bX] .sum) 10 dbXY).out = some [] ∧
-    outItems (Spec.step (.zInter [bX, bX] .sum) 10 (Spec.abs 10 dbXY)).out = some [(bA, .fin 2)] := by
-  refine ⟨by unfold DB.Inv; decide, by decide, by decide +kernel, by decide +kernel, by decide +kernel⟩
+/-- D07 is repaired. `Inter(x, x)`: the intersection of a set with itself is the set. The code's
+`having count(distinct kid) = 2` could never hold and the answer was empty; compared with the
+number of DISTINCT keys it holds, and for `min` the model answers exactly what the specification
+answers (the case is inside `zset_refines_partial`: `ArgsOk` holds, no classifier fires). -/
+theorem repeated_key_now_agrees :
+    dbXY.Inv ∧ ArgsOk (.zInter [bX, bX] .min) = true ∧
+    Decided (.zInter [bX, bX] .min) 10 dbXY = true ∧
+    Spec.known false (.zInter [bX, bX] .min) 10 dbXY = [] ∧
+    outItems (Model.dbRun (.zInter [bX, bX] .min) 10 dbXY).out = some [(bA, .fin 1)] ∧
+    (Model.dbRun (.zInter [bX, bX] .min) 10 dbXY).out
+      = (Spec.step (.zInter [bX, bX] .min) 10 (Spec.abs 10 dbXY)).out := by
+  have hinv : dbXY.Inv := by unfold DB.Inv; decide
+  have hdec : Decided (.zInter [bX, bX] .min) 10 dbXY = true := by decide +kernel
+  exact ⟨hinv, by decide, hdec, by decide +kernel, by decide +kernel,
+    (zset_refines_partial (.zInter [bX, bX] .min) 10 dbXY rfl hinv rfl (by decide) hdec
+      (by decide) (by decide) (by decide)).1⟩
 
 /-- D08 is real. `UnionStore(x, [x, y])` must leave x = {a ↦ 1, b ↦ 2} and answer 2. The model
 (like the code) empties the destination first, so x's own members are lost: it answers 1. -/
@@ -628,13 +699,16 @@ def db5 : DB :=
               { rowid := 4, kid := 1, elem := [51], score := .fin 3 },
               { rowid := 5, kid := 1, elem := [52], score := .fin 4 }] }
 
-/-- D09 is real. `DeleteWith(k).ByRank(3, 1)` is an inverted range and must remove nothing. The
-model (like the code: `limit 3, -1`) removes the ranks 3 and 4. -/
-theorem rank_inverted_deviates :
-    db5.Inv ∧ RankInverted (.zDeleteRank bK 3 1) = true ∧
-    outInt (Model.dbRun (.zDeleteRank bK 3 1) 10 db5).out = some 2 ∧
-    outInt (Spec.step (.zDeleteRank bK 3 1) 10 (Spec.abs 10 db5)).out = some 0 := by
-  refine ⟨by unfold DB.Inv; decide, by decide, by decide +kernel, by decide +kernel⟩
+/-- D09 is repaired. `DeleteWith(k).ByRank(3, 1)` is an inverted range and must remove nothing.
+The code sent `limit 3, -1` and removed the ranks 3 and 4; it now answers 0, as the specification
+does, and leaves the five members. -/
+theorem rank_inverted_now_agrees :
+    db5.Inv ∧ Spec.known false (.zDeleteRank bK 3 1) 10 db5 = [] ∧
+    outInt (Model.dbRun (.zDeleteRank bK 3 1) 10 db5).out = some 0 ∧
+    outInt (Spec.step (.zDeleteRank bK 3 1) 10 (Spec.abs 10 db5)).out = some 0 ∧
+    (Spec.zsetAt (Spec.abs 10 (Model.dbRun (.zDeleteRank bK 3 1) 10 db5).db) bK).length = 5 := by
+  refine ⟨by unfold DB.Inv; decide, by decide +kernel, by decide +kernel, by decide +kernel,
+    by decide +kernel⟩
 
 /-- 2^53 -/
 def big : Dyadic := 9007199254740992
@@ -667,10 +741,10 @@ theorem full_strength_is_false :
         Spec.abs now (Model.dbRun op now db).db
           = Spec.purge now (Spec.step op now (Spec.abs now db)).st) := by
   intro h
-  have h1 := (h (.zInter [bX, bX] .sum) 10 dbXY rfl repeated_key_deviates.1 rfl
-    repeated_key_deviates.2.2.1).1
-  have h2 := congrArg outItems h1
-  rw [repeated_key_deviates.2.2.2.1, repeated_key_deviates.2.2.2.2] at h2
+  have d := dest_is_source_deviates
+  have h1 := (h (.zUnionStore bX [bX, bY] .sum) 10 dbXY rfl d.1 d.2.2.1 (by decide +kernel)).1
+  have h2 := congrArg outInt h1
+  rw [d.2.2.2.1, d.2.2.2.2.1] at h2
   exact absurd h2 (by decide)
 
 /-- … and so is the statement with the catalogue's classifiers only (without `SumOrder`). -/
@@ -700,12 +774,24 @@ theorem addmany_repeated_member :
   refine ⟨by unfold DB.Inv; decide, by decide, by decide +kernel, by decide +kernel⟩
 
 /-- `ArgsOk` for `Union`: for a repeated key C05 fixes the members only. `Union(x, x)` with sum: the
-model reads x's rows once (a ↦ 1), the specification adds x to itself (a ↦ 2). -/
+model reads x's rows once (a ↦ 1), the specification adds x to itself (a ↦ 2). The members agree
+(`combination_members_any_key_list`). -/
 theorem union_repeated_key :
     dbXY.Inv ∧ ArgsOk (.zUnion [bX, bX] .sum) = false ∧
     outItems (Model.dbRun (.zUnion [bX, bX] .sum) 10 dbXY).out = some [(bA, .fin 1)] ∧
     outItems (Spec.step (.zUnion [bX, bX] .sum) 10 (Spec.abs 10 dbXY)).out = some [(bA, .fin 2)] := by
   refine ⟨by unfold DB.Inv; decide, by decide, by decide +kernel, by decide +kernel⟩
+
+/-- `ArgsOk` for `Inter` (the former D07 witness): `Inter(x, x)` with sum. The model no longer comes
+back empty: it answers with x's member, its score read once (a ↦ 1); the specification adds x to
+itself (a ↦ 2). Same members, a convention of the specification on the score. -/
+theorem inter_repeated_key_sum :
+    dbXY.Inv ∧ ArgsOk (.zInter [bX, bX] .sum) = false ∧
+    Spec.known false (.zInter [bX, bX] .sum) 10 dbXY = [] ∧
+    outItems (Model.dbRun (.zInter [bX, bX] .sum) 10 dbXY).out = some [(bA, .fin 1)] ∧
+    outItems (Spec.step (.zInter [bX, bX] .sum) 10 (Spec.abs 10 dbXY)).out = some [(bA, .fin 2)] := by
+  refine ⟨by unfold DB.Inv; decide, by decide, by decide +kernel, by decide +kernel,
+    by decide +kernel⟩
 
 /-- "k" = {a ↦ -inf} -/
 def dbInf : DB :=
@@ -743,7 +829,8 @@ def demoOps : List Op :=
    .zDelete bY [bB, bN], .zDeleteRank bX 0 0, .zDeleteRank bX 2 1, .zDeleteRank bX (-1) 5,
    .zDeleteScore bY (.fin 2) .posInf, .zGetRank bX bB, .zGetRankRev bY bC, .zGetScore bN bA,
    .zIncr bX bA (.fin 2), .zIncr bN bA .negInf, .zInter [bX, bY] .sum, .zInter [bX, bY, bW] .max,
-   .zInter [] .min, .zInterStore bN [bX, bY] .min, .zInterStore bW [bX, bY] .sum, .zLen bY,
+   .zInter [] .min, .zInter [bX, bY, bX] .min, .zInterStore bN [bY, bX, bY] .max,
+   .zUnion [bX, bX, bY] .max, .zDeleteRank bX 3 1, .zInterStore bN [bX, bY] .min, .zInterStore bW [bX, bY] .sum, .zLen bY,
    .zRangeRank bX 0 (-1) false, .zRangeRank bY 0 5 true, .zRangeScore bX .negInf .posInf true 1 1,
    .zUnion [bX, bY] .sum, .zUnion [bX, bY, bW, bS, bN] .min, .zUnionStore bN [bX, bW] .sum,
    .zUnionStore bS [bX] .max]
@@ -751,8 +838,7 @@ def demoOps : List Op :=
 /-- every hypothesis of `zset_refines_partial` holds for operations of each kind on `demo` -/
 example : ∀ op ∈ demoOps,
     IsZOp op ∧ Covered op = true ∧ ArgsOk op = true ∧ Decided op 10 demo = true ∧
-    Stale op 10 demo = false ∧ RepeatedKey op = false ∧ DestIsSource op = false ∧
-    RankInverted op = false ∧ SumOrder op = false := by
+    Stale op 10 demo = false ∧ DestIsSource op = false ∧ SumOrder op = false := by
   decide +kernel
 
 /-- the theorem instantiated: `Union(x, y)` with sum on `demo`, in rank order -/
@@ -763,7 +849,7 @@ example :
       = (Spec.step (.zUnion [bX, bY] .sum) 10 (Spec.abs 10 demo)).out :=
   ⟨by decide +kernel,
    (zset_refines_partial (.zUnion [bX, bY] .sum) 10 demo rfl (by unfold DB.Inv; decide) rfl
-     (by decide) (by decide +kernel) (by decide) (by decide) (by decide) (by decide) (by decide)).1⟩
+     (by decide) (by decide +kernel) (by decide) (by decide) (by decide)).1⟩
 
 /-- `InterStore(w, [x, y])` with sum replaces w = {b ↦ 2^53} by {b ↦ 7} -/
 example :
@@ -780,7 +866,7 @@ instance decCleanRun : ∀ tr db, Decidable (CleanRun tr db)
   | [], _ => isTrue trivial
   | (op, now) :: rest, db =>
     have := decCleanRun rest (Model.dbRun op now db).db
-    inferInstanceAs (Decidable (_ ∧ _ ∧ _ ∧ _ ∧ _ ∧ _ ∧ _ ∧ _ ∧ _))
+    inferInstanceAs (Decidable (_ ∧ _ ∧ _ ∧ _ ∧ _ ∧ _ ∧ _))
 
 instance decClockOk : ∀ t tr, Decidable (ClockOk t tr)
   | _, [] => isTrue trivial
